@@ -40,6 +40,9 @@ type c20Case struct {
 	// AFTER that dial the same Client dialled a second connection to a server that advertises the OPPOSITE of ESC
 	// (a Client that keeps several connections): what is reported must follow the connection the message was sent on
 	Pool bool `json:"pool,omitempty"`
+	// TLS: the session runs over STARTTLS (real handshake); the EHLO reply BEFORE the handshake advertises the OPPOSITE
+	// of ESC, the one inside TLS is the one that counts
+	TLS bool `json:"tls,omitempty"`
 }
 
 var c20TextNames = []string{"esc-at-start", "plain", "triple-inside", "multiline-esc", "esc-not-at-start", "esc-then-percent-verbs", "bare-esc-without-text", "esc-and-one-character"}
@@ -85,6 +88,13 @@ func c20Exec(r *vf.Run, k c20Case) (keys, whats []string) {
 		caps = append(caps, "ENHANCEDSTATUSCODES")
 	}
 	sess := &refsmtp.Session{Host: hx.Host, Caps: caps}
+	if k.TLS {
+		pre := []string{"8BITMIME", "STARTTLS"}
+		if !k.ESC {
+			pre = append(pre, "ENHANCEDSTATUSCODES")
+		}
+		sess.Caps, sess.CapsTLS = pre, caps
+	}
 	over := map[string]refsmtp.Action{}
 	exp := make([]c20Expect, k.M)
 	collateralFrom := k.M // messages from this index on fail because the connection was given up
@@ -158,6 +168,7 @@ func c20Exec(r *vf.Run, k c20Case) (keys, whats []string) {
 		}
 	}
 	conn := refsmtp.NewConn(sess)
+	conn.TLSConfig = hx.ServerTLS(hx.Mat().Good)
 	otherCaps := []string{"8BITMIME"}
 	if !k.ESC {
 		otherCaps = append(otherCaps, "ENHANCEDSTATUSCODES")
@@ -172,7 +183,11 @@ func c20Exec(r *vf.Run, k c20Case) (keys, whats []string) {
 		}
 		return conn
 	}}
-	cl, err := mail.NewClient(hx.Host, mail.WithDialContextFunc(rig.Dial), mail.WithHELO("client.example.test"), mail.WithTLSPolicy(mail.NoTLS))
+	pol := mail.NoTLS
+	if k.TLS {
+		pol = mail.TLSMandatory
+	}
+	cl, err := mail.NewClient(hx.Host, mail.WithDialContextFunc(rig.Dial), mail.WithHELO("client.example.test"), mail.WithTLSPolicy(pol), mail.WithTLSConfig(hx.ClientTLS(hx.Host)))
 	if err != nil {
 		r.HarnessError("C20 NewClient: %v", err)
 		return
@@ -373,7 +388,7 @@ func init() {
 	vf.Register(&vf.Check{
 		ID: "C20", Title: "SendError reflects the server's verdict",
 		Run: func(r *vf.Run) {
-			r.SetRule("every reply code 400..599 × 8 reply-text kinds (enhanced code at start / plain / dotted triple inside / multi-line / enhanced code not at start / text with '%' format verbs / the bare enhanced code without any text / the enhanced code and one character; enhanced codes with every subject/detail field of 1..3 digits from {0,1,7,10,77,100,255|509,999}) × position {MAIL, every non-empty subset of 3 RCPTs (mixed codes), DATA, end-of-data, RSET} × failing message 1..3 of a batch of 3 × ENHANCEDSTATUSCODES advertised or not, plus all pairs of failing messages; plus the same failures on the first of two connections of one Client (connection-per-caller API) whose servers differ in ENHANCEDSTATUSCODES; the oracle is a reference function of the replies the server actually sent; distinct by case tuple")
+			r.SetRule("every reply code 400..599 × 8 reply-text kinds (enhanced code at start / plain / dotted triple inside / multi-line / enhanced code not at start / text with '%' format verbs / the bare enhanced code without any text / the enhanced code and one character; enhanced codes with every subject/detail field of 1..3 digits from {0,1,7,10,77,100,255|509,999}) × position {MAIL, every non-empty subset of 3 RCPTs (mixed codes), DATA, end-of-data, RSET} × failing message 1..3 of a batch of 3 × ENHANCEDSTATUSCODES advertised or not, plus all pairs of failing messages; plus the same failures in a STARTTLS session whose EHLO replies before and inside TLS differ in ENHANCEDSTATUSCODES; plus the same failures on the first of two connections of one Client (connection-per-caller API) whose servers differ in ENHANCEDSTATUSCODES; the oracle is a reference function of the replies the server actually sent; distinct by case tuple")
 			r.Assume("the list of rejected recipients is read from SendError.Error() (no exported accessor)", "a message whose delivery succeeded but whose trailing RSET failed counts as delivered")
 			var cases []c20Case
 			codes := []int{}
@@ -415,6 +430,14 @@ func init() {
 									cases = append(cases, c20Case{ESC: esc, M: 3, R: 3, Fails: []c20Fail{{Msg: (sub + det) % 3, Pos: pos, Mask: 1 + (sub+det)%7, Code: code, Text: text, SD: fmt.Sprintf("%d.%d", sub, det)}}})
 								}
 							}
+						}
+					}
+				}
+				// the session over STARTTLS, the EHLO replies before and inside TLS differ in ENHANCEDSTATUSCODES
+				for _, code := range []int{421, 450, 550, 554} {
+					for _, pos := range []string{"MAIL", "RCPT", "DATA", "EOD", "RSET"} {
+						for _, text := range []int{0, 1, 3} {
+							cases = append(cases, c20Case{ESC: esc, M: 3, R: 3, TLS: true, Fails: []c20Fail{{Msg: (code + text) % 3, Pos: pos, Mask: 1 + code%7, Code: code, Text: text}}})
 						}
 					}
 				}
